@@ -170,6 +170,50 @@ def annotation_from_global(channel, a: "GLOBAL_CONST" = 1):  # noqa: F821
     channel.send(a)
 
 
+# the same references from bodies whose OUTER code object mentions nothing but builtins and locals (no
+# attribute access at all): only the nested code objects / the def's own defaults know about the global
+def quiet_global_in_inner_def(channel):
+    def g(c):
+        c.send(GLOBAL_CONST)
+
+    g(channel)
+
+
+def quiet_global_in_lambda(channel):
+    f = lambda c: c.send(helper(2))  # noqa: E731
+    f(channel)
+
+
+def quiet_global_in_genexp(channel):
+    list(c.send(GLOBAL_CONST) for c in [channel])
+
+
+def quiet_global_in_inner_class(channel):
+    class A:
+        x = GLOBAL_CONST
+
+    len([A])
+
+
+def quiet_default_from_global(channel, a=GLOBAL_CONST):
+    len([a])
+
+
+def quiet_kwdefault_from_global(channel, *, a=GLOBAL_CONST):
+    len([a])
+
+
+def quiet_pure_inner_def(channel):
+    def g(c):
+        c.send(len("four"))
+
+    g(channel)
+
+
+def quiet_pure_nothing(channel):
+    len([channel])
+
+
 @deco
 def decorated(channel):
     channel.send("decorated")
